@@ -71,8 +71,15 @@ def main():
         cmd = f"go test -vet=off -count=1 -timeout 40m {tests}"
         rc, o, dt = sh(cmd, cwd=wt, timeout=3000)
         fails = [l for l in o.splitlines() if l.startswith("FAIL") or l.startswith("--- FAIL")]
-        meta["existing_tests_pass"] = rc == 0
         meta["ran"].append(dict(cmd=cmd, rc=rc, wall=round(dt), fail_lines=fails[:10]))
+        if rc != 0:
+            # timing-dependent tests (e.g. TestJournalConcurrent) flake on a loaded machine: re-run the failing packages alone, twice
+            bad = sorted({l.split()[1] for l in o.splitlines() if l.startswith("FAIL\t")})
+            if bad:
+                cmd2 = "go test -vet=off -count=2 -timeout 20m " + " ".join(bad)
+                rc, o, dt = sh(cmd2, cwd=wt, timeout=1500)
+                meta["ran"].append(dict(cmd=cmd2, rc=rc, wall=round(dt), note="rerun of packages that failed in the broad run"))
+        meta["existing_tests_pass"] = rc == 0
         # demo with the patch
         for d in demos:
             shutil.copy(os.path.join(src, d), os.path.join(wt, dest, d))
